@@ -519,6 +519,32 @@ def classify_known(pid, c):
     return None
 
 
+def confirm(pid, cases, pred, max_cases=6, tries=2):
+    """Re-execute failing cases (smallest first) and keep those on which the failure shows again. Many harnesses
+    measure real time (hang detection, tick tolerances, waiting for goroutines): on a loaded machine a run can time
+    out without anything being wrong. A failure that is never seen again when the same case is re-executed alone is
+    not reported; it is counted in the evidence (`unconfirmed`)."""
+    kept, unconfirmed = [], 0
+    for c in sorted(cases, key=lambda c: len(c.ops))[:max_cases]:
+        ok = False
+        for _ in range(tries):
+            try:
+                r = exec_cases(pid, [{"id": c.id, "variant": c.variant, "ops": c.ops}], "confirm")
+            except Exception:
+                r = []
+            if r and pred(r[0]):
+                kept.append(r[0])
+                ok = True
+                break
+        if not ok:
+            unconfirmed += 1
+            write_replay(pid, "unconfirmed", {"property": pid, "kind": "seen once, not seen again when re-executed alone (not reported)",
+                                              "case": c.to_json()})
+        if kept:
+            break
+    return kept, unconfirmed
+
+
 def verdict(pid, tier, seed, cfg, obligations, discharged, problems, s, stats, t0, leancheck, log):
     new_viol, known_seen = [], dict(s.get("known_cases", {}))
     for c in s["viol"]:
@@ -539,6 +565,17 @@ def verdict(pid, tier, seed, cfg, obligations, discharged, problems, s, stats, t
     def pred_violates(r):
         return r.violates() and classify_known(pid, r) is None
 
+    if new_viol:
+        new_viol, unc = confirm(pid, new_viol, pred_violates)
+        extra["unconfirmed_violations"] = unc
+    if s["disagree"]:
+        kept, unc = confirm(pid, s["disagree"], lambda r: r.disagrees() or r.violates())
+        extra["unconfirmed_disagreements"] = unc
+        s["disagree"] = kept
+        # a disagreement that turns into a violation on re-execution is a violation
+        for r in kept:
+            if pred_violates(r) and not new_viol:
+                new_viol = [r]
     if new_viol:
         c = min(new_viol, key=lambda c: len(c.ops))
         m = minimise(pid, c, pred_violates)
@@ -583,9 +620,11 @@ def search(pid, seed, tier, log, pred):
         files, _, _ = gen_and_compare(pid, sd, "thorough", "search", log, timeout=900)
         if files is None:
             continue
-        for c in zip_results(*files):
-            if pred(c):
-                return c
+        cands = [c for c in zip_results(*files) if pred(c)]
+        if cands:
+            kept, _ = confirm(pid, cands, pred)
+            if kept:
+                return kept[0]
     return None
 
 
